@@ -5,7 +5,7 @@ CONSTANTS
   Toks <- AnyTok
   Spell <- OneSpell
   Auths <- ThreeAuth
-  QPairs <- PairsAll
+  QPairs <- PairsMid
   Batches <- BatchesAll
 INVARIANT TypeOK
 PROPERTY Unauth
